@@ -30,6 +30,9 @@ func (x *Exec) instr(fr *Frame, st *State, in ssa.Instruction) {
 			k := vc.heapKey("H", et)
 			st.heap[k] = vc.define("h", vc.heapSorts[k], fmt.Sprintf("(store %s %s %s)", vc.heapGet(st, k), id, vc.zeroOf(et)))
 			fr.regs[i] = Val{Loc: &Loc{kind: lHeap, key: k, ptr: id, rootT: et, typ: et}}
+			if addrPrivate(i) {
+				x.priv = append(x.priv, privCell{key: k, ptr: id, alloc: i, fr: fr})
+			}
 			return
 		}
 		st.cells[i] = vc.zeroOf(et)
